@@ -1,15 +1,18 @@
 (* C06 -- ring perception returns a minimum cycle basis that ring marks agree with (PARTIAL).
-   Statements only; proofs in Proofs.RingsProofs.
+   Statements only; proofs in Proofs.RingsProofs and Proofs.RingsMcb.
 
    What is a theorem here:
-     (S) the cycle-basis CHECKER is sound (simple cycles of the graph, GF(2)-independent, count = cyclomatic number);
-         the implementation's SSSR selection (_bfs/_make_pid/_c_set/_rings_filter) is a heuristic with recorded gaps and
-         is NOT modelled: its outputs are run through the checker on every check run;
+     (S) the cycle-basis CHECKER is sound AND complete (accepted <-> well-formed graph, simple cycles of the graph,
+         GF(2)-independent, count = cyclomatic number); the implementation's SSSR selection
+         (_bfs/_make_pid/_c_set/_rings_filter/...) is a heuristic with recorded gaps and is NOT modelled: its outputs are run
+         through the checker on every check run; the reference construction mcb_ref returns independent simple cycles
+         (a basis whenever it reaches the count: _partial);
      (A) the deterministic pieces are modelled at algorithm level and proved for all inputs:
          _connected_components (any pop order), _skin_graph, rings_count, _canonic_ring, atoms_rings /
-         atoms_rings_sizes / the ring marks of calc_labels.
+         atoms_rings_sizes / the ring marks of calc_labels (special bonds never in a ring), aromatic_rings.
    What is NOT a theorem: minimality of the total ring size and numbering-independence of the ring-size multiset
-   (search against the reference construction mcb_ref / a Python Horton implementation). *)
+   (search against the reference construction mcb_ref / a Python Horton implementation), that the Horton candidates span
+   the cycle space, and "in_ring <-> lies on a cycle" (search against a bridge finder). *)
 From Coq Require Import ZArith List Bool Permutation.
 From Model Require Import PyBase Graph Rings.
 From Proofs Require Import RingsProofs RingsMcb.
